@@ -526,8 +526,25 @@ func RunCheck(id, tier string, seed int64) int {
 		}
 		okc := 0
 		const tries = 5
-		for k := 0; k < tries; k++ {
-			code, _ := runSingle(id, tier, seed, sp.Name, cr.index, noPrefix, time.Duration(wd)*time.Second)
+		// the five fresh single-case processes are independent of each other: a hang costs one watchdog period, not five.
+		// Cases of checks that raise the memory limit are still confirmed one after the other.
+		codes := make([]int, tries)
+		if ck.MemLimitGiB > 4 {
+			for k := 0; k < tries; k++ {
+				codes[k], _ = runSingle(id, tier, seed, sp.Name, cr.index, noPrefix, time.Duration(wd)*time.Second)
+			}
+		} else {
+			var wg sync.WaitGroup
+			for k := 0; k < tries; k++ {
+				wg.Add(1)
+				go func(k int) {
+					defer wg.Done()
+					codes[k], _ = runSingle(id, tier, seed, sp.Name, cr.index, noPrefix, time.Duration(wd)*time.Second)
+				}(k)
+			}
+			wg.Wait()
+		}
+		for _, code := range codes {
 			if code != 0 && code != 1 {
 				okc++
 			}
